@@ -70,9 +70,15 @@ CHECK_DEADLOCK FALSE
 NO_UPPER_ACE = ["lower", "upper", "nfc", "nfd", "alabel"]
 MC_QUICK = dict(locals_=["l1"], doms=["d1"], envlocals=["l2"], maxsrc=1, maxdst=1, maxblocks=4,
                 envvars=NO_UPPER_ACE)
-# exhaustive, thorough: two local parts in the rules, one defect per configuration
-MC_THOROUGH = dict(locals_=["l1", "l2"], doms=["d1"], maxsrc=1, maxdst=1, maxblocks=4,
-                   maxdefects=1, envvars=NO_UPPER_ACE)
+# exhaustive, thorough: three bounds - two local parts and two spellings in the rules; two domains;
+# and the quick bound with one defect (missing default, undecided block, mixed level, reject+deliver_to)
+MC_THOROUGH = [
+    dict(locals_=["l1", "l2"], doms=["d1"], rulevars=["lower", "nfd"], maxsrc=1, maxdst=1, maxblocks=4,
+         envvars=NO_UPPER_ACE),
+    dict(locals_=["l1"], doms=["d1", "d2"], envlocals=["l2"], maxsrc=1, maxdst=1, maxblocks=4,
+         envvars=NO_UPPER_ACE),
+    dict(MC_QUICK, maxdefects=1),
+]
 # as-is (deviations must be visible to the model)
 MC_ASIS = dict(locals_=["l1"], doms=["d1"], envlocals=["l2"], rulevars=["lower", "ALABEL"],
                maxsrc=0, maxdst=1, maxblocks=2, maxdefects=1)
@@ -168,17 +174,19 @@ def run(ctx, replay):
         rows = [obj["row"]]
     else:
         # ---- (T) exhaustive enumeration inside the small bound + model theorems ----
-        mc = MC_THOROUGH if thorough else MC_QUICK
-        r = ctx.tlc_expect_ok("Routing", None, name="mc", workers=16,
-                              timeout=2400 if thorough else 300,
-                              cfg_text=gen_cfg(tail="INVARIANT TheoremsHold\n", **mc))
-        ctx.cov["states"] = r["distinct"]
-        ctx.cov["transitions"] = r["generated"]
-        ctx.cov["model_depth"] = r["depth"]
-        ex_rows = rows_from(r)
+        ex_rows = []
+        ctx.cov["states"] = ctx.cov["transitions"] = ctx.cov["model_depth"] = 0
+        for k, mc in enumerate(MC_THOROUGH if thorough else [MC_QUICK]):
+            r = ctx.tlc_expect_ok("Routing", None, name="mc%d" % k, workers=16,
+                                  timeout=2400 if thorough else 300,
+                                  cfg_text=gen_cfg(tail="INVARIANT TheoremsHold\n", **mc))
+            ctx.cov["states"] += r["distinct"]
+            ctx.cov["transitions"] += r["generated"]
+            ctx.cov["model_depth"] = max(ctx.cov["model_depth"], r["depth"])
+            ex_rows += rows_from(r)
+            ctx.log("TLC exhaustive bound %d: %d distinct states, %d transitions, %d rows, theorems hold, %.1fs" % (
+                k, r["distinct"], r["generated"], len(rows_from(r)), r["wall"]))
         ctx.cov["exhaustive_configurations"] = len(set(cfg_key(x) for x in ex_rows))
-        ctx.log("TLC exhaustive: %d distinct states, %d transitions, %d configurations, theorems hold, %.1fs" % (
-            r["distinct"], r["generated"], ctx.cov["exhaustive_configurations"], r["wall"]))
 
         # ---- as-is: every open deviation must be visible to the model (non-vacuity) ----
         for dev in open_devs:
@@ -362,7 +370,8 @@ META = {
             "on each: selected block unique, loadable => decision for every envelope, operational rule satisfies the "
             "declarative property. Every row is loaded with the real msgpipeline.New and every envelope of the sweep is "
             "pushed through Start/AddRcpt/Body/Commit; TLC evaluates the C04 clauses on the recorded outcome.",
-    "note": "Exhaustive only inside the small bound (1 source-family + 1 destination-family block per level, one domain); "
+    "note": "Exhaustive only inside small bounds (1 source-family + 1 destination-family block per level; one domain in quick, "
+            "three bounds incl. two domains / two spellings / one defect in thorough); "
             "the full grammar is sampled by seeded TLC simulation (260 configurations quick, 6000 thorough). "
             "Trusted: TLC, harness, Go toolchain.",
     "design_ref": "DESIGN.md section 5 C04",
